@@ -44,6 +44,10 @@ func main() {
 		replay(os.Args[2:])
 	case "post":
 		post(os.Args[2:])
+	case "full":
+		full(os.Args[2:])
+	case "witness":
+		witness(os.Args[2:])
 	default:
 		fmt.Fprintln(os.Stderr, "unknown mode")
 		os.Exit(2)
@@ -977,6 +981,14 @@ func oracle(args []string) {
 					sum.Dist["needs-opts-iat"]++
 				}
 				run(g, label+":needs-opts")
+				continue
+			}
+		}
+		if i%11 == 5 {
+			// a file whose header line depends on the header's own copy of the options (10-character origin / destination under the bypass flags)
+			if g := bypassValid(r, f); g != nil {
+				sum.Dist["header-bypass"]++
+				run(g, label+":header-bypass")
 				continue
 			}
 		}
